@@ -263,6 +263,11 @@ func (g *gen) record(kind, owner string, names []string, d docResult, tr []strin
 
 var scalarTypes = []string{"int", "string", "bool", "float64", "[]byte", "map[string]int", "func(e int, s string) error", "struct{ X, Y int }", "func() (n int, err error)", "interface{ M(a int) }"}
 
+// embeddable: types declared in emb.go of every generated package; each may be embedded once per struct
+var embeddable = []string{"EmbA", "*EmbB", "EmbC", "EmbD"}
+
+const embFile = "package %s\n\ntype (\n\tEmbA struct{}\n\tEmbB struct{}\n\tEmbC int\n\tEmbD interface{ Q() }\n)\n"
+
 func (g *gen) fields(owner string) { g.fieldsAt(owner, "\t", 0) }
 
 // fieldsAt emits the field list of a struct at indentation ind; owner is the path of field names from the declared
@@ -305,6 +310,7 @@ func (g *gen) fieldsAt(owner, ind string, depth int) { g.fieldsAtWith(owner, ind
 func (g *gen) fieldsAtWith(owner, ind string, depth int, firstPrev string) {
 	n := 1 + g.r.Intn(6)
 	g.prevTrailing = firstPrev
+	embLeft := append([]string(nil), embeddable...)
 	for i := 0; i < n; i++ {
 		d := g.doc(ind, false)
 		if d.shape != "none" {
@@ -326,6 +332,24 @@ func (g *gen) fieldsAtWith(owner, ind string, depth int, firstPrev string) {
 		case pick == 0:
 			names = []string{g.name("F"), g.name("G")}
 			g.emit(ind + strings.Join(names, ", ") + " " + scalarTypes[g.r.Intn(len(scalarTypes))] + tr)
+		case pick == 2 && len(embLeft) > 0:
+			// an embedded field (no name list in the syntax; the field is named after its type): doc above, trailing
+			// comment on its line - and the field below it must not inherit that trailing comment (seeded change C12-l)
+			k := g.r.Intn(len(embLeft))
+			spell := embLeft[k]
+			embLeft = append(embLeft[:k], embLeft[k+1:]...)
+			names = []string{strings.TrimPrefix(spell, "*")}
+			g.emit(ind + spell + tr)
+			kindPos := fmt.Sprintf("i%d|embedded", min(i, 2))
+			if depth > 0 {
+				kindPos += fmt.Sprintf("|nested-depth-%d", depth)
+			}
+			g.record("field", owner, names, d, trl, trs, kindPos)
+			g.prevTrailing = trs
+			if trs != "none" {
+				g.prevTrailing = "embedded-" + trs
+			}
+			continue
 		case pick == 1 && depth < 2:
 			// a field whose type is (built from) a multi-line anonymous struct: its own fields are documented too
 			names = []string{g.name("N")}
@@ -585,6 +609,7 @@ func (p *prop) runLayout(c core.Case, w *core.Worker, res *core.Result) {
 			files[pkg+"/"+fn] = src
 			m.MustWrite(pkg+"/"+fn, src)
 		}
+		m.MustWrite(pkg+"/emb.go", fmt.Sprintf(embFile, pkg))
 	}
 	var u *gengotypes.Universe
 	pk, pv, _ := core.Guard(func() { u, err = gengotypes.Load(patterns, gengotypes.WithDir(m.Root)) })
@@ -631,7 +656,7 @@ func (p *prop) runLayout(c core.Case, w *core.Worker, res *core.Result) {
 		}
 		if !second {
 			res.Evals++
-			nontriv := strings.Contains(e.Shape, "prev=line") || strings.Contains(e.Shape, "prev=block") || strings.Contains(e.Shape, "tags") || strings.Contains(e.Shape, "detached")
+			nontriv := strings.Contains(e.Shape, "prev=line") || strings.Contains(e.Shape, "prev=block") || strings.Contains(e.Shape, "prev=embedded-") || strings.Contains(e.Shape, "tags") || strings.Contains(e.Shape, "detached")
 			if nontriv {
 				res.NonTrivial(e.Shape)
 			}
@@ -656,10 +681,16 @@ func (p *prop) runLayout(c core.Case, w *core.Worker, res *core.Result) {
 			res.Fail("trailing", e.Shape, fmt.Sprintf("%s %s (line %d of %s/%s): Comment = %q, want %q\nsource:\n%s", e.Kind, e.Name, e.Line, e.Pkg, e.File, tr, e.Trailing, ctx()), e)
 		}
 		res.Count("attribution_assertions", 3)
-		if strings.Contains(e.Shape, "prev=line") || strings.Contains(e.Shape, "prev=block") {
+		if strings.Contains(e.Shape, "prev=line") || strings.Contains(e.Shape, "prev=block") || strings.Contains(e.Shape, "prev=embedded-") {
 			if strings.Contains(e.Shape, "doc=none") {
 				res.Inc("undocumented_decl_after_trailing_comment")
+				if strings.Contains(e.Shape, "prev=embedded-") {
+					res.Inc("undocumented_field_after_embedded_field_with_trailing_comment")
+				}
 			}
+		}
+		if strings.Contains(e.Shape, "|embedded") {
+			res.Inc("embedded_fields")
 		}
 	}
 	// third pass, through a running generator: gengo's own Context.Doc (which removes the leading name from the first
